@@ -6,8 +6,10 @@ package main
 //     prefix/suffix oracles and porcupine; (c) free-running producers, per-producer order.
 
 import (
+	"context"
 	"fmt"
 	"os"
+	"path/filepath"
 	"sort"
 	"strings"
 	"sync"
@@ -469,9 +471,127 @@ func c06concurrent(w *W, policy string, cap, prefill, P, opsEach int, ci int) (s
 //go:noinline
 func c06producer(f func()) { f() }
 
+// c06rolling: the asynchronous rolling-file logger must honour its overflow policy too. The worker is parked
+// inside its first file write (guarded yield point), the buffer (100) is overfilled by one producer, and the
+// calls must return while the worker is parked; afterwards the files must hold exactly the survivors the
+// policy prescribes.
+var c06rollTag *log.Tag
+
+func c06rolling(w *W, y *yielder, policy string, sep bool, ci int) (string, string) {
+	dir := filepath.Join(w.Spec.Dir, fmt.Sprintf("%s.r%d", w.Spec.Name, ci))
+	_ = os.RemoveAll(dir)
+	_ = os.MkdirAll(dir, 0755)
+	defer os.RemoveAll(dir)
+	tag := c06rollTag
+	cfg := map[string]string{"appender.u.type": "Discard", "logger.lg.type": "RollingFile", "logger.lg.tags": "c06roll", "logger.lg.fileDir": dir, "logger.lg.fileName": "q.log",
+		"logger.lg.rotation": "h", "logger.lg.async": "true", "logger.lg.bufferSize": "100", "logger.lg.bufferFullPolicy": policy, "logger.lg.separate": fmt.Sprint(sep)}
+	if err := log.Refresh(cfg); err != nil {
+		log.Destroy()
+		return "Refresh failed: " + err.Error(), "refresh"
+	}
+	release := make(chan struct{})
+	y.pause.Store("roll.write.loaded", release)
+	hits := func() int64 {
+		if c, ok := y.hits.Load("roll.write.loaded"); ok {
+			return c.(*atomic.Int64).Load()
+		}
+		return 0
+	}
+	h0 := hits()
+	ctx := context.Background()
+	id := func(i int) string { return fmt.Sprintf("id-k%dx%d-%d", w.Spec.Shard, ci, i) }
+	log.Info(ctx, tag, log.Msg(id(0)))
+	for t0 := time.Now(); hits() == h0; {
+		if time.Since(t0) > 20*time.Second {
+			y.pause.Delete("roll.write.loaded")
+			close(release)
+			log.Destroy()
+			return "the worker never reached its first file write", "worker-idle"
+		}
+		time.Sleep(100 * time.Microsecond)
+	}
+	const total = 250
+	done, pv, _ := callWithWatchdog(20*time.Second, func() {
+		c06producer(func() {
+			for i := 1; i <= total; i++ {
+				log.Info(ctx, tag, log.Msg(id(i)))
+			}
+		})
+	})
+	if !done {
+		kind, gr := stuckInLibrary("c06producer")
+		y.pause.Delete("roll.write.loaded")
+		close(release)
+		if kind == "blocked" {
+			return "a log call through the asynchronous rolling-file logger is parked inside the library while its worker is held in a file write (policy " + policy + " must not wait for the appender):\n" + trunc(gr, 1200), "call-waits-for-appender"
+		}
+		return "producer did not finish", "inconclusive"
+	}
+	if pv != nil {
+		y.pause.Delete("roll.write.loaded")
+		close(release)
+		return fmt.Sprintf("log call panicked: %v", pv), "panic"
+	}
+	y.pause.Delete("roll.write.loaded")
+	close(release)
+	log.Destroy()
+	got := idsIn(readDirAll(dir))
+	var want []int
+	switch policy {
+	case "Discard":
+		for i := 0; i <= 100; i++ {
+			want = append(want, i)
+		}
+	case "DiscardOldest":
+		want = append(want, 0)
+		for i := total - 99; i <= total; i++ {
+			want = append(want, i)
+		}
+	}
+	for _, i := range want {
+		if got[id(i)] != 1 {
+			return fmt.Sprintf("policy %s: item %d should have survived (buffer 100, 1 in flight, %d submitted) but is in the files %d times; %d items survived", policy, i, total+1, got[id(i)], len(got)), "policy"
+		}
+	}
+	if len(got) != len(want) {
+		return fmt.Sprintf("policy %s: %d items in the files, expected %d", policy, len(got), len(want)), "policy"
+	}
+	return "", ""
+}
+
 func c06Worker(w *W) {
 	registerMonitorPlugins()
 	y := installYielder(uint64(w.Spec.Seed), 0, 0)
+	if w.Spec.Kind == "rolling" {
+		c06rollTag = log.RegisterTag("c06roll")
+		ci := 0
+		for rep := 0; rep < int(w.Spec.N); rep++ {
+			for _, pol := range []string{"Discard", "DiscardOldest"} {
+				for _, sep := range []bool{false, true} {
+					ci++
+					w.Journal("rolling policy=%s separate=%v", pol, sep)
+					d, cls := c06rolling(w, y, pol, sep, ci)
+					w.Eval(1)
+					cs := map[string]any{"logger": "RollingFile async", "policy": pol, "separate": sep, "buffer": 100}
+					switch {
+					case cls == "inconclusive":
+						w.Inconclusive(d)
+					case d != "":
+						w.Violate("C06:rolling-async:"+cls+":"+pol, d, cs)
+						if cls == "call-waits-for-appender" || cls == "refresh" {
+							// a producer is still parked inside the library: this process cannot be reused
+							w.flush()
+							os.Exit(0)
+						}
+					default:
+						w.Distinct(fmt.Sprintf("rolling|%s|sep=%v", pol, sep))
+						w.Sample(cs)
+					}
+				}
+			}
+		}
+		return
+	}
 	policies := []string{"Block", "Discard", "DiscardOldest"}
 	switch w.Spec.Kind {
 	case "enum":
@@ -618,7 +738,7 @@ func init() {
 		ID: "C06", Level: "exploration", MinDistinct: 300, Worker: c06Worker,
 		Rule: "(a) deterministic histories: a gated appender parks the worker inside Append with one item in flight; from a full buffer (cap 100, 100 queued) and a nearly full one (cap 101, 99 queued), ALL operation sequences of length 1..5 (quick) / 1..7 (thorough) over {append event, raw write, let the worker take one item} are executed for each of the three policies and compared step-wise and at the end (delivered sequence, discard counter) with an executable queue model; Block-policy calls on a full buffer are issued from a goroutine, must park and are released by a later step. " +
 			"(b) concurrent histories: 2-8 producers x 3-5 operations against a parked consumer and a (nearly) full buffer, then drain; oracles: survivor count and counter, per-producer order, Discard => survivors are a prefix / DiscardOldest => a suffix of each producer's submissions, and porcupine linearizability of the recorded call/return history against the bounded-queue-with-policy model; a call parked inside the library while the gate is closed is a deadlock witness. " +
-			"(c) free-running producers (1-32) with fast/slow appenders and seeded yields: per-producer delivery order. distinct_nontrivial = number of enumerated (policy,start state,sequence) histories that matched + distinct parameter classes of (b) and (c).",
+			"(d) the asynchronous rolling-file logger (buffer 100, Discard/DiscardOldest, separate on/off) with its worker held inside a file write at a guarded yield point: 250 calls must return and the files must hold exactly the survivors the policy prescribes. (c) free-running producers (1-32) with fast/slow appenders and seeded yields: per-producer delivery order. distinct_nontrivial = number of enumerated (policy,start state,sequence) histories that matched + distinct parameter classes of (b) and (c).",
 		Assumptions: []string{"cross-producer real-time order is not promised and not checked except through linearizability of (b)", "porcupine Unknown (timeout) is inconclusive"},
 		Run: func(d *D) {
 			var specs []Spec
@@ -650,6 +770,10 @@ func init() {
 				}
 				specs = append(specs, s)
 			}
+			rs := d.NewSpec("rolling", "rolling-async", 60, 12)
+			rs.N = d.Pick(1, 4)
+			rs.TimeoutS = 600
+			specs = append(specs, rs)
 			outs := d.RunWorkers(specs, 16)
 			d.raceVerdict(outs)
 			d.Extra["exhaustive"] = true
